@@ -20,6 +20,7 @@ import (
 	"github.com/alibaba/sentinel-golang/core/isolation"
 	"github.com/alibaba/sentinel-golang/core/stat"
 	"github.com/alibaba/sentinel-golang/core/system"
+	"github.com/alibaba/sentinel-golang/util/verifhook"
 	"verifharness/internal/vh"
 )
 
@@ -32,6 +33,17 @@ type Interp struct {
 	fb      []string
 	steps   uint64
 	inStep  uint32
+	parked  map[string]*parked
+	arming  *parked
+}
+
+// parked is an api.Entry call running on its own goroutine and held at the yield point
+// "chain.between-check-and-stat" of SlotChain.Entry.
+type parked struct {
+	reached chan struct{} // closed by the goroutine when it arrives at the yield point
+	resume  chan struct{} // closed by the interpreter to let it continue
+	done    chan string   // the result of the call
+	entry   *base.SentinelEntry
 }
 
 func New() vh.Interp {
@@ -41,7 +53,16 @@ func New() vh.Interp {
 	runtime.LockOSThread()
 	debug.SetGCPercent(-1)
 	vh.Silence()
-	it := &Interp{clk: vh.NewClock(startMs), entries: map[string]*base.SentinelEntry{}}
+	it := &Interp{clk: vh.NewClock(startMs), entries: map[string]*base.SentinelEntry{}, parked: map[string]*parked{}}
+	// the scheduler hook: only the goroutine that was just launched by `pentry` stops (at the one yield point
+	// between the rule-check loop and the statistic loop); every other yield is a no-op
+	verifhook.Sched = func(point string) {
+		if p := it.arming; p != nil && point == "chain.between-check-and-stat" {
+			it.arming = nil
+			close(p.reached)
+			<-p.resume
+		}
+	}
 	// watchdog (real time): a step that does not return (e.g. a spin loop in a mutated tree) must end the run
 	// with an error instead of hanging the check
 	go func() {
@@ -66,6 +87,9 @@ func New() vh.Interp {
 
 func (it *Interp) Reset() {
 	// leave no entry of the previous case alive (their contexts go back to the pool)
+	for id := range it.parked {
+		it.finish(id)
+	}
 	for _, e := range it.entries {
 		e.Exit()
 	}
@@ -159,6 +183,57 @@ func parseRule(s string) *hotspot.Rule {
 	return r
 }
 
+// doEntry parses the arguments of an entry op and calls api.Entry.
+func doEntry(t []string) (*base.SentinelEntry, string) {
+	res := t[2]
+	var args []interface{}
+	var atts map[interface{}]interface{}
+	for _, s := range t[3:] {
+		if strings.HasPrefix(s, "@") {
+			kv := strings.SplitN(s[1:], "=", 2)
+			if len(kv) != 2 {
+				panic("bad attachment " + s)
+			}
+			if atts == nil {
+				atts = map[interface{}]interface{}{}
+			}
+			atts[kv[0]] = parseVal(kv[1])
+		} else {
+			args = append(args, parseVal(s))
+		}
+	}
+	var opts []sentinel.EntryOption
+	if len(args) > 0 {
+		opts = append(opts, sentinel.WithArgs(args...))
+	}
+	if atts != nil {
+		opts = append(opts, sentinel.WithAttachments(atts))
+	}
+	e, b := sentinel.Entry(res, opts...)
+	if b != nil {
+		switch b.BlockType() {
+		case base.BlockTypeHotSpotParamFlow:
+			return nil, "block hot"
+		case base.BlockTypeFlow:
+			return nil, "block flow"
+		}
+		return nil, "block " + b.BlockType().String()
+	}
+	return e, "pass"
+}
+
+// finish lets a parked entry run to completion and returns its result.
+func (it *Interp) finish(id string) string {
+	p := it.parked[id]
+	delete(it.parked, id)
+	close(p.resume)
+	r := <-p.done
+	if p.entry != nil {
+		it.entries[id] = p.entry
+	}
+	return r
+}
+
 func (it *Interp) Step(t []string, op string) string {
 	atomic.StoreUint32(&it.inStep, 1)
 	defer func() {
@@ -195,45 +270,49 @@ func (it *Interp) Step(t []string, op string) string {
 		}
 		return ""
 	case "entry":
-		id, res := t[1], t[2]
+		id := t[1]
 		if _, dup := it.entries[id]; dup {
 			panic("duplicate entry id " + id)
 		}
-		var args []interface{}
-		var atts map[interface{}]interface{}
-		for _, s := range t[3:] {
-			if strings.HasPrefix(s, "@") {
-				kv := strings.SplitN(s[1:], "=", 2)
-				if len(kv) != 2 {
-					panic("bad attachment " + s)
+		e, r := doEntry(t)
+		if e != nil {
+			it.entries[id] = e
+		}
+		return r
+	case "pentry":
+		id := t[1]
+		if _, dup := it.entries[id]; dup {
+			panic("duplicate entry id " + id)
+		}
+		if _, dup := it.parked[id]; dup {
+			panic("duplicate entry id " + id)
+		}
+		p := &parked{reached: make(chan struct{}), resume: make(chan struct{}), done: make(chan string, 1)}
+		it.arming = p
+		go func() {
+			defer func() {
+				if x := recover(); x != nil {
+					p.done <- fmt.Sprintf("PANIC %v", x)
 				}
-				if atts == nil {
-					atts = map[interface{}]interface{}{}
-				}
-				atts[kv[0]] = parseVal(kv[1])
-			} else {
-				args = append(args, parseVal(s))
-			}
+			}()
+			e, r := doEntry(t)
+			p.entry = e
+			p.done <- r
+		}()
+		select {
+		case <-p.reached:
+			it.parked[id] = p
+		case r := <-p.done:
+			// the call ended without passing the yield point (cannot happen on the unchanged tree)
+			it.arming = nil
+			return "unparked " + r
 		}
-		var opts []sentinel.EntryOption
-		if len(args) > 0 {
-			opts = append(opts, sentinel.WithArgs(args...))
+		return ""
+	case "resume":
+		if _, ok := it.parked[t[1]]; !ok {
+			return "none"
 		}
-		if atts != nil {
-			opts = append(opts, sentinel.WithAttachments(atts))
-		}
-		e, b := sentinel.Entry(res, opts...)
-		if b != nil {
-			switch b.BlockType() {
-			case base.BlockTypeHotSpotParamFlow:
-				return "block hot"
-			case base.BlockTypeFlow:
-				return "block flow"
-			}
-			return "block " + b.BlockType().String()
-		}
-		it.entries[id] = e
-		return "pass"
+		return it.finish(t[1])
 	case "exit":
 		if e, ok := it.entries[t[1]]; ok {
 			e.Exit()
